@@ -123,9 +123,12 @@ def fam? (s : String) : Option (Nat × Nat) :=
 
 def fams? (s : String) : Option (List (Nat × Nat)) := (splitOnOrEmpty s "+").mapM fam?
 
+/-- `mx`: the maximum message size, followed by `a` when AIGP_SESSION is enabled (`4096a`). -/
 def params? (a4 ap xnh mx : String) : Option Params :=
-  match bool? a4, fams? ap, fams? xnh, mx.toNat? with
-  | some a, some b, some c, some d => some { asn4 := a, addpath := b, extnh := c, msgSize := d }
+  let ai := mx.endsWith "a"
+  let mxs := if ai then (mx.dropRight 1) else mx
+  match bool? a4, fams? ap, fams? xnh, mxs.toNat? with
+  | some a, some b, some c, some d => some { asn4 := a, addpath := b, extnh := c, msgSize := d, aigp := ai }
   | _, _, _, _ => none
 
 def nlri? (s : String) : Option Nlri :=
